@@ -170,6 +170,16 @@ def auto_replay(reg, c, model, clause):
             _time.time = lambda: ghost['now']
             patches.append(lambda: setattr(_time, 'time', real_time))
         result, raised = None, None
+        import signal
+
+        class _ReplayTimeout(BaseException):
+            pass
+
+        def _alarm(signum, frame):
+            raise _ReplayTimeout()
+
+        old_handler = signal.signal(signal.SIGALRM, _alarm)
+        signal.setitimer(signal.ITIMER_REAL, 3.0)
         try:
             r = fn(**args) if not inspect.isgeneratorfunction(fn) else list(fn(**args))
             if inspect.iscoroutine(r):
@@ -177,8 +187,18 @@ def auto_replay(reg, c, model, clause):
 
                 r = asyncio.new_event_loop().run_until_complete(r)
             result = r
+        except _ReplayTimeout:
+            # the real function did not come back: for a termination (variant) obligation that IS the failing input
+            out['observed'] = {'result': None, 'raised': None, 'timeout': 'did not return within 3 s'}
+            out['input'] = {n: _show(v) for n, v in list(args.items()) + list(ghost.items())}
+            out['failed_natively'] = ['the real function does not terminate on this input'] if clause.startswith('variant') else []
+            out['confirmed'] = clause.startswith('variant')
+            return out
         except BaseException as e:  # noqa
             raised = e
+        finally:
+            signal.setitimer(signal.ITIMER_REAL, 0)
+            signal.signal(signal.SIGALRM, old_handler)
     finally:
         for p in patches:
             p()
